@@ -19,6 +19,14 @@ import itertools, os, sys, tempfile, importlib.util, shutil, json
 from guppylang_internals.error import GuppyError
 
 U, I, F, G = "U", "int", "float", "fn"
+# Code after a statement that always jumps away (return / break / continue) is reached by no path.
+# The property's "iff some path reaches it" then says: never rejected because of it.  guppylang checks
+# such code as if it were entered from the jump.  The same question arises after `while True:` without
+# break and under `if False:` ("ignoring branch condition values" vs. folded constants).  The oracle
+# does not take sides: the reference is computed under BOTH readings — FALL[0] False: such code is
+# ignored, constant conditions are folded; True: a jump may also fall through, `while True` may exit,
+# `if False` may be entered — and a program is judged only when both give the same verdicts.
+FALL = [False]
 VARS = ("x", "h")          # `h` is ALSO a module-level Guppy function: local only if assigned somewhere
 
 # ---- program representation: nested tuples
@@ -70,19 +78,21 @@ def live_before(stmts, live_after, loop_ctx):
             b = live_before(s[2], live, loop_ctx) if s[2] is not None else set(live)
             live = a | b
         elif k == "iffalse":
-            pass                      # constant-false branch: its body is dead code
+            if FALL[0]:               # second reading: the condition is ignored like any other
+                live = live_before(s[1], live, loop_ctx) | live
+            # first reading: constant-false branch, its body is dead code
         elif k in ("while", "whiletrue", "for"):
-            # `while True` is left through `break` only (constant conditions are folded)
-            head = set(live) if k != "whiletrue" else set()
+            # `while True` is left through `break` only (constant conditions are folded) — first reading
+            head = set(live) if (k != "whiletrue" or FALL[0]) else set()
             while True:
                 nb = live_before(s[1], head, (head, live))
                 new = head | nb
                 if new == head: break
                 head = new
             live = head
-        elif k == "break": live = set(loop_ctx[1])
-        elif k == "continue": live = set(loop_ctx[0])
-        elif k == "return": live = set()
+        elif k == "break": live = set(loop_ctx[1]) | (live if FALL[0] else set())
+        elif k == "continue": live = set(loop_ctx[0]) | (live if FALL[0] else set())
+        elif k == "return": live = set(live) if FALL[0] else set()
     return live
 
 class Ref:
@@ -91,6 +101,7 @@ class Ref:
         self.locals = assigned_anywhere(prog)
         self.verdicts = set()
         self.dead = False
+        self.saw_dead = False
     def read(self, states, v):
         if v not in self.locals:
             if v != "h" and states:   # neither a local nor a global (`h` is the only global)
@@ -110,10 +121,8 @@ class Ref:
         brk, cont = set(), set()
         for idx, s in enumerate(stmts):
             if not states:
-                # statically dead code (every path before it jumps away): outside the domain of
-                # this oracle — guppylang checks it as if entered from the block before the
-                # jumping statement, which the property statement does not define
-                self.dead = True
+                # statically dead code (every path before it jumps away): ignored under this reading
+                self.saw_dead = True
                 break
             rest = stmts[idx + 1:]
             la = live_before(rest, live_after, loop_ctx)
@@ -126,12 +135,10 @@ class Ref:
                     # guppylang 0.21 rejects closures that capture a local ("Unsupported"); the
                     # read still takes part in the definedness analysis
                     self.verdicts.add("closure")
-            elif k == "iffalse":
-                # dead body: its assignments only make names local (Python scoping); reads in
-                # dead code are outside the oracle's domain
-                if any(x[0] not in ("asg", "return", "break", "continue") for x in s[1]):
-                    self.dead = True
-            elif k == "if":
+            elif k == "iffalse" and not FALL[0]:
+                # dead body: its assignments only make names local (Python scoping)
+                pass
+            elif k in ("if", "iffalse"):
                 t, b1, c1 = self.run(s[1], states, la, loop_ctx)
                 if k == "if" and s[2] is not None:
                     e, b2, c2 = self.run(s[2], states, la, loop_ctx)
@@ -153,19 +160,37 @@ class Ref:
                     if new == seen: break
                     seen = new
                 # condition-false exit + breaks; a `while True` is left through breaks only
-                states = self.join([seen, exits], la) if k != "whiletrue" else self.join([exits], la)
-            elif k == "break": brk |= states; states = set()
-            elif k == "continue": cont |= states; states = set()
-            elif k == "return": states = set()
+                states = self.join([seen, exits], la) if (k != "whiletrue" or FALL[0]) else self.join([exits], la)
+            elif k == "break": brk |= states; states = set() if not FALL[0] else states
+            elif k == "continue": cont |= states; states = set() if not FALL[0] else states
+            elif k == "return": states = set() if not FALL[0] else states
         return states, brk, cont
 
-def reference(prog):
-    r = Ref(prog)
-    init = tuple(sorted({v: U for v in VARS}.items()))
-    r.run(prog, {init}, set(), (set(), set()))
+def _reference(prog, fall):
+    FALL[0] = fall
+    try:
+        r = Ref(prog)
+        init = tuple(sorted({v: U for v in VARS}.items()))
+        r.run(prog, {init}, set(), (set(), set()))
+    finally:
+        FALL[0] = False
     if r.dead:
         r.verdicts.add("DEAD")
-    return r.verdicts
+    return r.verdicts, r.saw_dead
+
+def has_dead(stmts):
+    for i, s_ in enumerate(stmts):
+        if s_[0] in ("return", "break", "continue") and i + 1 < len(stmts): return True
+        if s_[0] == "if" and (has_dead(s_[1]) or (s_[2] is not None and has_dead(s_[2]))): return True
+        if s_[0] in ("while", "whiletrue", "for", "iffalse") and has_dead(s_[1]): return True
+    return False
+
+def reference(prog):
+    va, _ = _reference(prog, False)
+    vb, _ = _reference(prog, True)
+    if va != vb:
+        return va | vb | {"DEAD"}          # the two readings of dead code disagree: not judged
+    return va
 
 HEADER = """from guppylang import guppy
 from typing import Generic
@@ -308,6 +333,24 @@ def programs(tier):
     if tier != "thorough":
         d2 = d2[::23]
     out += d2
+    # statements after a jump (judged only where both readings of dead code agree): a prefix that may
+    # split the block, an assignment, a jump, then reads / assignments
+    tails = [[u] for u in uses[:2]] + [[a, u] for a in asgs[:2] for u in uses[:1]] + [[("asg", "x", I)]]
+    pre_plain = [[]] + [[c] for c in compounds(lists(S, 1), lists(SL, 1), lists(S, 1), lists(SL, 1))]
+    dead = []
+    for pre in pre_plain:
+        for mid in ([], [("asg", "x", I)], [("asg", "x", F)], [("asg", "h", I)]):
+            for t_ in tails:
+                dead.append(pre + mid + [("return",)] + t_)
+    for pre in ([], [("asg", "x", I)], [("if", [("asg", "x", I)], None)], [("if", [("asg", "x", I)], [("asg", "x", I)])]):
+        for jump in (("break",), ("continue",), ("return",)):
+            for t_ in tails:
+                for loop in ("while", "for"):
+                    dead.append([(loop, pre + [("asg", "h", I)] + [jump] + t_)])
+                    dead.append([("asg", "x", F), (loop, pre + [jump] + t_), ("use", "x")])
+    if tier != "thorough":
+        dead = dead[::3]
+    out += dead
     return out
 
 I_ = INPUT
